@@ -58,6 +58,13 @@ Definition run_k9 (args : list sx) : sx :=
   | _ => bad
   end.
 
+(* K8c: (10 ((x t) ...)) -> ((value tangent) ...) of val_clamp applied to a whole tensor (elementwise) *)
+Definition run_k10 (args : list sx) : sx :=
+  match args with
+  | [xs] => L (map (fun x => let r := val_clamp_d (ddual x) in L [eq_ (dv r); eq_ (dt r)]) (match xs with L l => l | _ => [] end))
+  | _ => bad
+  end.
+
 (* K30: (30 kb (roots-of-call ...)) -> per add_knowledge call: num_formulae, formula_number of every
    object (-1 = none), Model.nodes as key -> object for key < num_formulae, len(Model.nodes), and how
    often each object's parameters occur in Model.parameters() *)
@@ -86,6 +93,7 @@ Definition run_base (tag : Z) (args : list sx) : option sx :=
   | 4 => Some (run_k4 args)
   | 8 => Some (run_k8 args)
   | 9 => Some (run_k9 args)
+  | 10 => Some (run_k10 args)
   | 30 => Some (run_k30 args)
   | 40 => Some (run_k40 args)
   | 41 => Some (run_k41 args)
